@@ -94,6 +94,10 @@ func (StreamingCRLFileReader) ReadCRL(crlProcessor CRLProcessor, crlFilePath str
 	if err != nil {
 		return nil, err
 	}
+	if !tbsCertListTL.Length.Length.IsInt64() {
+		return nil, errors.New("tbsCertList length is too large")
+	}
+	tbsCertListEnd := reader.Position() + tbsCertListTL.Length.Length.Int64()
 	version := 1
 	if versionExists(reader) {
 		version, err = parseVersion(reader, version)
@@ -132,7 +136,7 @@ func (StreamingCRLFileReader) ReadCRL(crlProcessor CRLProcessor, crlFilePath str
 	if err != nil {
 		return nil, err
 	}
-	if revokedCertificateListExists(reader) {
+	if reader.Position() < tbsCertListEnd && revokedCertificateListExists(reader) {
 		err := parseRevokedCertificateList(issuer, reader, crlProcessor)
 		if err != nil {
 			return nil, err
@@ -140,7 +144,7 @@ func (StreamingCRLFileReader) ReadCRL(crlProcessor CRLProcessor, crlFilePath str
 	}
 	var crlExtensions *[]pkix.Extension = nil
 	var crlNumber *big.Int = nil
-	if extensionsExists(reader, version) {
+	if reader.Position() < tbsCertListEnd && extensionsExists(reader, version) {
 		crlExtensions, err = parseExtensions(reader)
 		if err != nil {
 			return nil, err
@@ -150,6 +154,9 @@ func (StreamingCRLFileReader) ReadCRL(crlProcessor CRLProcessor, crlFilePath str
 			return nil, err
 		}
 
+	}
+	if reader.Position() != tbsCertListEnd {
+		return nil, errors.New("content of tbsCertList does not match its length")
 	}
 	extendedMetaInfo := ExtendedCRLMetaInfo{
 		crlNumber,
@@ -259,15 +266,11 @@ func parseRevokedCertificateList(issuer *pkix.RDNSequence, reader hashing.Hashin
 	if err != nil {
 		return err
 	}
-	for {
-		revokedCertSeq, err := asn1parser.PeekTagLength(&reader, 0)
-		if err != nil {
-			return err
-		}
-
-		if revokedCertSeq.Tag != asn1crypto.SEQUENCE {
-			break
-		}
+	if !revokedCertListTag.Length.Length.IsInt64() {
+		return errors.New("revokedCertificates length is too large")
+	}
+	revokedCertListEnd := reader.Position() + revokedCertListTag.Length.Length.Int64()
+	for reader.Position() < revokedCertListEnd {
 		revokedCert := new(pkix.RevokedCertificate)
 		err = asn1parser.ReadStruct(&reader, revokedCert)
 		if err != nil {
@@ -280,6 +283,9 @@ func parseRevokedCertificateList(issuer *pkix.RDNSequence, reader hashing.Hashin
 		if err != nil {
 			return err
 		}
+	}
+	if reader.Position() != revokedCertListEnd {
+		return errors.New("content of revokedCertificates does not match its length")
 	}
 	return nil
 }
@@ -332,7 +338,8 @@ func readAlgorithmIdentifier(reader asn1parser.Asn1Reader) (*pkix.AlgorithmIdent
 
 func newHashingDERCRLReader(crlFile *os.File) hashing.HashingReaderWrapper {
 	var reader = hashing.HashingReaderWrapper{
-		Reader: bufio.NewReader(crlFile),
+		Reader:    bufio.NewReader(crlFile),
+		BytesRead: new(int64),
 	}
 	return reader
 }
@@ -342,7 +349,8 @@ func newHashingPEMCRLReader(crlFile *os.File) hashing.HashingReaderWrapper {
 	decoder := base64.NewDecoder(base64.StdEncoding, &pemReader)
 
 	var reader = hashing.HashingReaderWrapper{
-		Reader: bufio.NewReader(decoder),
+		Reader:    bufio.NewReader(decoder),
+		BytesRead: new(int64),
 	}
 	return reader
 
